@@ -272,6 +272,13 @@ def c13(tier, seed):
     for n in (0, 1, 2, 3, 5):
         z = [0] * n
         lines.append("nested0 %s %s" % (fmt(z), fmt(z)))
+    # a key whose Ord (total order: -0.0 < +0.0, NaN placed) is finer than its PartialOrd (IEEE): all pairs over 4 codes
+    import itertools
+    for n in (1, 2, 3):
+        for a in itertools.product((0, 1, 2, 9), repeat=n):
+            for b in itertools.product((0, 1, 2, 9), repeat=n):
+                if n < 3 or (sum(a) + 3 * sum(b)) % (5 if tier == "quick" else 1) == 0:
+                    lines.append("tot %s %s" % (fmt(list(a)), fmt(list(b))))
     # zero-sized elements with a non-trivial PartialEq / PartialOrd (equal to nothing, like NaN), also nested
     for n in (0, 1, 2, 3, 4, 5, 16):
         z = [9] * n
